@@ -7,9 +7,11 @@ What is read (Python `ast`, nothing is executed):
 * `parse_state.py  ParseState.__eq__`   — the attribute names compared;
 * `column.py       Column.add`          — whether a state is only appended `if state not in self.unique`,
                                           and that `unique` is a `set` built from the states;
-* `iterative_parser.py  IterativeParser.complete` — whether a finished state is dropped when its own
-                                          nonterminal is in its `covering` set (the acyclic repair);
-* `iterative_parser.py  IterativeParser._consume` — whether the INCOMPLETE-mode loop skips such states too;
+* `iterative_parser.py  IterativeParser.complete` / `parse_state.py ParseState.covering/set_covering/copy` —
+                                          whether `complete` returns at once for a state whose own derivation
+                                          `(nonterminal, finished())` is in its `covering` set, and the exact
+                                          bookkeeping of that set (the acyclic repair; the same test cuts the
+                                          force-completed rounds of INCOMPLETE mode);
 * `nodes/__init__.py  MAX_REPETITIONS`  — the cap used for open upper bounds at compile time.
 
 Policy selection (a Python `set` compares hashes first, then `__eq__`):
@@ -102,27 +104,78 @@ def add_membership() -> dict[str, Any]:
     return {"guarded": guarded and len(all_appends) == 1, "unique_is_set": unique_is_set}
 
 
-def covering_cut() -> bool:
+def _norm(node: ast.AST) -> str:
+    return ast.unparse(node).replace(" ", "")
+
+
+def covering_cut() -> dict[str, Any]:
+    """the acyclic repair, read from `IterativeParser.complete` and `ParseState`:
+
+    * head of `complete`: `derivation = (state.nonterminal, state.finished())`, `covering = state.covering(k)`,
+      `if derivation in covering: return`  — before the loop over `find_dot`;
+    * loop body: a set that receives `derivation` and `covering` under `s.position == state.position`, and
+      `s.covering(k)` under `state.position == k`, handed to `s.set_covering(k, frozenset(…))` after `s = s.next()`;
+    * `ParseState.covering(column)` answers only for the column it was set for; `copy()` carries it.
+
+    Returns {"cut": bool, "prefix": bool}; raises Refusal when the word `covering` occurs in `complete` in a shape
+    other than this one (the model has no policy for it)."""
     cls = find_class(parse_file("language/grammar/parser/iterative_parser.py"), "IterativeParser")
     fn = find_func(cls, "complete")
-    for n in ast.walk(fn):
-        if isinstance(n, ast.If) and "covering" in ast.unparse(n.test) and "finished" in ast.unparse(n.test):
-            if any(isinstance(b, ast.Continue) for b in n.body):
-                return True
-    return False
-
-
-def prefix_cut() -> bool:
-    """does the INCOMPLETE-mode loop of `_consume` skip states whose nonterminal is in their covering set?"""
-    cls = find_class(parse_file("language/grammar/parser/iterative_parser.py"), "IterativeParser")
-    fn = find_func(cls, "_consume")
-    for n in ast.walk(fn):
-        if isinstance(n, ast.If) and "INCOMPLETE" in ast.unparse(n.test):
-            for m in ast.walk(n):
-                if isinstance(m, ast.If) and "covering" in ast.unparse(m.test) \
-                        and any(isinstance(b, ast.Continue) for b in m.body):
-                    return True
-    return False
+    if "covering" not in ast.unparse(fn):
+        return {"cut": False, "prefix": False}
+    body = [st for st in fn.body if not (isinstance(st, ast.Expr) and isinstance(st.value, ast.Constant))]
+    loops = [i for i, st in enumerate(body) if isinstance(st, ast.For)]
+    if len(loops) != 1:
+        raise Refusal("complete: expected exactly one loop over find_dot")
+    head, loop = body[:loops[0]], body[loops[0]]
+    heads = [_norm(st) for st in head]
+    want_head = ["derivation=(state.nonterminal,state.finished())", "covering=state.covering(k)",
+                 "ifderivationincovering:\nreturn"]
+    if [h.replace("\n", "\n").replace("    ", "") for h in heads] != want_head:
+        raise Refusal(f"complete: head of the covering cut has an unknown shape: {heads}")
+    if _norm(loop.iter) != "table[state.position].find_dot(state.nonterminal)":
+        raise Refusal("complete: loop does not run over table[state.position].find_dot(state.nonterminal)")
+    set_name = None
+    conds: dict[str, list[str]] = {}
+    handed = False
+    advanced_before_set = False
+    seen_next = False
+    for st in loop.body:
+        if isinstance(st, ast.AnnAssign) and _norm(st.value) == "set()" or \
+                isinstance(st, ast.Assign) and _norm(st.value) == "set()":
+            tgt = st.target if isinstance(st, ast.AnnAssign) else st.targets[0]
+            set_name = _norm(tgt)
+        elif isinstance(st, ast.If) and set_name and any(set_name + "." in _norm(b) for b in st.body):
+            conds[_norm(st.test)] = sorted(_norm(b) for b in st.body)
+            if st.orelse:
+                raise Refusal("complete: covering bookkeeping with an else branch")
+        elif _norm(st) == "s=s.next()":
+            seen_next = True
+        elif set_name and _norm(st) == f"s.set_covering(k,frozenset({set_name}))":
+            handed = True
+            advanced_before_set = seen_next
+    want_conds = {
+        "s.position==state.position": sorted([f"{set_name}.add(derivation)", f"{set_name}.update(covering)"]),
+        "state.position==k": [f"{set_name}.update(s.covering(k))"],
+    }
+    if conds != want_conds or not handed or not advanced_before_set:
+        raise Refusal(f"complete: covering bookkeeping has an unknown shape: {conds}, handed={handed}")
+    # ParseState side
+    ps = find_class(parse_file("language/grammar/parser/parse_state.py"), "ParseState")
+    cov = find_func(ps, "covering")
+    rets = [_norm(n.value) for n in ast.walk(cov) if isinstance(n, ast.Return) and n.value is not None]
+    if rets != ["self._coveringifself._covering_column==columnelsefrozenset()"]:
+        raise Refusal(f"ParseState.covering has an unknown shape: {rets}")
+    setc = find_func(ps, "set_covering")
+    sets = sorted(_norm(st) for st in setc.body if not isinstance(st, ast.Expr))
+    if sets != ["self._covering=covering", "self._covering_column=column"]:
+        raise Refusal(f"ParseState.set_covering has an unknown shape: {sets}")
+    cp = find_func(ps, "copy")
+    if "set_covering(self._covering_column,self._covering)" not in _norm(cp):
+        raise Refusal("ParseState.copy does not carry the covering set")
+    # the cut sits at the head of `complete`, which the INCOMPLETE end-of-input loop calls for every state with
+    # children: the same test (with `finished()` False) cuts the force-completed rounds of prefix mode
+    return {"cut": True, "prefix": True}
 
 
 def max_repetitions() -> int:
@@ -137,8 +190,9 @@ def regenerate() -> dict:
         info["hash_fields"], info["eq_fields"] = hf, ef
         mem = add_membership()
         info.update(mem)
-        info["covering_cut"] = covering_cut()
-        info["prefix_cut"] = prefix_cut()
+        cut = covering_cut()
+        info["covering_cut"] = cut["cut"]
+        info["prefix_cut"] = cut["prefix"]
         info["max_repetitions"] = max_repetitions()
         if not mem["guarded"] or not mem["unique_is_set"]:
             raise Refusal("Column.add does not admit a state only `if state not in self.unique` (a set)")
